@@ -1,5 +1,6 @@
 SPECIFICATION Spec
 CONSTANTS
+  Fault = "none"
   Cfgs <- T4B_Cfgs
   Soc0s <- SocAll
   Dts <- Dt2
